@@ -142,7 +142,40 @@ def search(doc, limit_s=60):
     return {"searched": n}, 0
 
 
+def sweep(sidecar, name, prop, limit_s=600):
+    """evaluate every ensures clause (serving prop) on every candidate input"""
+    import time
+    from pyvc import contract as C
+    mod, holder = find_holder(sidecar, name)
+    con = holder._contract
+    gen = holder.candidates
+    gen = gen.__func__ if isinstance(gen, staticmethod) else gen
+    res = {}
+    t0 = time.time()
+    for cand in gen():
+        for cl in con.ensures:
+            if cl.props and prop not in cl.props and prop not in con.props:
+                continue
+            doc = {"sidecar": sidecar, "contract": name, "clause": cl.name, "kind": "ensures",
+                   "inputs": {k: C.enc(v) for k, v in cand.items()}}
+            r = res.setdefault(cl.name, {"cases": 0, "failed": []})
+            try:
+                out, code = replay(doc)
+            except Exception:
+                continue
+            r["cases"] += 1
+            if code == 1:
+                r["failed"].append(doc["inputs"])
+        if time.time() - t0 > limit_s:
+            break
+    return res
+
+
 def main(argv):
+    if argv[1] == "--sweep":
+        json.dump(sweep(argv[2], argv[3], argv[4]), sys.stdout, default=str)
+        sys.stdout.write("\n")
+        return 0
     if argv[1] == "--search":
         with open(argv[2]) as fh:
             doc = json.load(fh)
